@@ -6,23 +6,23 @@ CONSTANTS
   MaxInc = 7
   LbBig = 1000
   FixRetire = FALSE
-  Routing0 = "keyp"
-  Workers0 = 2
+  Routing0 = "queuer"
+  Workers0 = 1
   Lim0 <- Lim1
   Mode0 = "oldest"
-  RlOn = FALSE
+  RlOn = TRUE
   RlRefill = 1
   RlInterval = 2
   RlMax = 1
   JobKeys <- Keys1121
-  JobTtl <- NoTtl4
-  PortJobs = {2}
+  JobTtl <- Ttl4
+  PortJobs = {2, 4}
   Ends = {"ok", "panic"}
-  MaxKills = 1
+  MaxKills = 0
   MaxFaults = 1
-  Resizes <- Res31
-  MayDrain = TRUE
-  MaxT = 0
+  Resizes <- Res12
+  MayDrain = FALSE
+  MaxT = 5
   TStep = 1
   FreeOrder = FALSE
 INVARIANTS
